@@ -122,6 +122,60 @@ theorem c07_skip_then_read {σ : Type} [ScopeAlg σ] [LawfulScope σ] (p : Prims
     rw [List.cons_append, this]
     exact ih (fun s hs => hm s (List.mem_cons_of_mem _ hs)) res (nextScope cur (some c0)) c1 st1 h1
 
+/-- **A chain has a scope of its own.**  A Pipe evaluates its steps below the frame `_glom` made for
+    the Pipe object and hands *that* frame back: the scope it finishes in shows exactly what the scope
+    it was handed shows — nothing its steps bound. -/
+theorem c07_pipe_own_scope {σ : Type} [ScopeAlg σ] [LawfulScope σ] (p : Prims) (fuel : Nat) (steps : List Spec)
+    (t : V) (c : σ) (st st' : St) (v : V) (c' : σ)
+    (h : interp p (fuel + 1) (.pipe steps) t c st = (st', .ok (v, c'))) (k : String) :
+    lookup c' k = lookup c k ∧ lookupRef c' k = lookupRef c k := by
+  simp only [interp, Spec.isSpecLike, if_true, glomit, M.bind_apply] at h
+  rcases hr : tupleLoop (interp p fuel) steps t (setArgMode (child c) false) Option.none st with ⟨st1, r1⟩
+  rw [hr] at h
+  cases r1 with
+  | error e => simp at h
+  | ok w =>
+    simp only [M.pure_apply, Prod.mk.injEq, Except.ok.injEq] at h
+    obtain ⟨_, _, hc⟩ := h
+    subst hc
+    constructor
+    · rw [LawfulScope.lookup_setArgMode, LawfulScope.lookup_child]
+    · rw [LawfulScope.lookupRef_setArgMode, LawfulScope.lookupRef_child]
+
+/-- … and so does every plain object (a tuple — the other spelling of a chain —, a dict, a list, a
+    path string, a callable), in every mode: it finishes in the child frame `_glom` made for it. -/
+theorem c07_plain_own_scope {σ : Type} [ScopeAlg σ] [LawfulScope σ] (p : Prims) (fuel : Nat) (s : Spec)
+    (hs : s.isSpecLike = false) (t : V) (c : σ) (st st' : St) (v : V) (c' : σ)
+    (h : interp p (fuel + 1) s t c st = (st', .ok (v, c'))) (k : String) :
+    lookup c' k = lookup c k ∧ lookupRef c' k = lookupRef c k := by
+  simp only [interp, hs, Bool.false_eq_true, if_false, M.bind_apply] at h
+  split at h
+  · simp only [M.pure_apply, Prod.mk.injEq, Except.ok.injEq] at h
+    obtain ⟨_, _, hc⟩ := h
+    subst hc
+    exact ⟨LawfulScope.lookup_child .., LawfulScope.lookupRef_child ..⟩
+  · simp at h
+
+/-- **A binding made inside a chain ends with that chain** — also when the chain is directly a
+    step of another chain, tuple or Pipe, at any depth: the scope `_handle_tuple` hands to the step
+    *after* an inner chain shows exactly what the scope handed *to* the inner chain showed.  A name
+    bound inside is unbound again (or shows the outer binding again: shadowing ends), whatever
+    the inner steps did.  (Inlining the steps of the inner chain into the outer one is therefore not
+    equivalent: see the examples below.) -/
+theorem c07_inner_chain_bindings_end {σ : Type} [ScopeAlg σ] [LawfulScope σ] (p : Prims) (fuel : Nat)
+    (inner : Spec) (hin : (∃ steps, inner = .pipe steps) ∨ inner.isSpecLike = false)
+    (res : V) (cur : σ) (last : Option σ) (st st1 : St) (v : V) (c1 : σ)
+    (h : interp p (fuel + 1) inner res (nextScope cur last) st = (st1, .ok (v, c1))) (k : String) :
+    lookup (nextScope (nextScope cur last) (some c1)) k = lookup (nextScope cur last) k ∧
+    lookupRef (nextScope (nextScope cur last) (some c1)) k = lookupRef (nextScope cur last) k := by
+  have hown : lookup c1 k = lookup (nextScope cur last) k ∧ lookupRef c1 k = lookupRef (nextScope cur last) k := by
+    rcases hin with ⟨steps, rfl⟩ | hs
+    · exact c07_pipe_own_scope p fuel steps res _ st st1 v c1 h k
+    · exact c07_plain_own_scope p fuel inner hs res _ st st1 v c1 h k
+  simp only [nextScope]
+  rw [LawfulScope.lookup_chain, LawfulScope.lookupRef_chain]
+  exact hown
+
 /-- `A.name` binds the target in its own frame, `S(name=…)`'s frame gets the evaluated values:
     that frame is what the next step of the chain sees. -/
 theorem c07_binders_write_own_frame {σ : Type} [ScopeAlg σ] [LawfulScope σ] (p : Prims) (rec : Rec σ)
@@ -316,6 +370,18 @@ example : isOkInt (glomTop trivPrims 8 (.tuple [.specW (.val .skip) [("k", .int 
 example : isOkInt (glomTop trivPrims 8 (.tuple [.aBind "k", .val .stop, .sRead "zz" []]) (.int 1) [] {}) 1 = true := by decide
 -- a binding made inside a nested chain does not reach the enclosing chain, skipped step or not
 example : isErr (glomTop trivPrims 8 (.tuple [.tuple [.aBind "k", .val .skip], .sRead "k" []]) (.int 1) [] {}) "PathAccessError" = true := by decide
+-- a Pipe that is directly a step of a Pipe: its binding shadows the outer one inside it only …
+example : isOkStr (glomTop trivPrims 8 (.pipe [.sBind [("x", .val (.str "outer"))],
+    .pipe [.sBind [("x", .val (.str "inner"))], .t []], .sRead "x" []]) (.int 0) [] {}) "outer" = true := by decide
+-- … and is usable inside it
+example : isOkStr (glomTop trivPrims 8 (.pipe [.sBind [("x", .val (.str "outer"))],
+    .pipe [.sBind [("x", .val (.str "inner"))], .sRead "x" []]]) (.int 0) [] {}) "inner" = true := by decide
+-- inlining the inner Pipe's steps is NOT equivalent: the inner binding would never end
+example : isOkStr (glomTop trivPrims 8 (.pipe [.sBind [("x", .val (.str "outer"))],
+    .sBind [("x", .val (.str "inner"))], .t [], .sRead "x" []]) (.int 0) [] {}) "inner" = true := by decide
+-- a name bound only inside the inner Pipe is unbound for the enclosing Pipe (two levels, tuple in between)
+example : isErr (glomTop trivPrims 8 (.pipe [.pipe [.tuple [.pipe [.aBind "x", .t []]], .t []], .sRead "x" []])
+    (.int 7) [] {}) "PathAccessError" = true := by decide
 -- the hypotheses of `c07_skip_then_read` are satisfiable: `Val(SKIP)` steps (`c07_val_skip_keeps`)
 example (c0 : Frames) (h0 : lookup c0 "k" = some (.int 1)) (res : V) (cur : Frames) (st : St) :
     ∃ st', tupleLoop (interp trivPrims 3) ([.val .skip, .val .skip] ++ [.sRead "k" []]) res cur (some c0) st = (st', .ok (.int 1)) :=
